@@ -1,10 +1,13 @@
 package io
 
 import (
+	"errors"
 	zerr "github.com/DemoHn/Zn/pkg/error"
 	"io"
 	"unicode/utf8"
 )
+
+var errInvalidUTF8 = errors.New("文件不是有效的 UTF-8 编码")
 
 // InputStream defines an abstract reader that read bytes from external sources
 // (e.g. files, strings, etc.) and transform to unicode chars
@@ -14,24 +17,31 @@ type InputStream interface {
 }
 
 // readRune - read bytes and yield runes
-func readRune(r io.Reader, remains []byte, b int) ([]rune, []byte, error) {
+// the returned flag tells whether the reader has reached EOF; an incomplete
+// sequence at the end of a block is carried over to the next read, while bytes
+// that can never become valid UTF-8 (or an incomplete tail at EOF) are an error.
+func readRune(r io.Reader, remains []byte, b int, atEnd bool) ([]rune, []byte, bool, error) {
 	p := make([]byte, b)
 	rs := make([]rune, 0)
 
 	t, err := r.Read(p)
 	if err != nil && err != io.EOF {
-		return rs, []byte{}, zerr.ReadFileError(err, " <buffer> ")
+		return rs, []byte{}, false, zerr.ReadFileError(err, " <buffer> ")
 	}
+	eof := atEnd || err == io.EOF
 
 	buf := append(remains, p[:t]...)
 	for len(buf) > 0 {
 		ru, size := utf8.DecodeRune(buf)
-		if ru == utf8.RuneError {
-			return rs, buf, nil
+		if ru == utf8.RuneError && size <= 1 {
+			if !utf8.FullRune(buf) && !eof {
+				return rs, buf, eof, nil
+			}
+			return rs, buf, eof, zerr.ReadFileError(errInvalidUTF8, " <buffer> ")
 		}
 
 		rs = append(rs, ru)
 		buf = buf[size:]
 	}
-	return rs, buf, nil
+	return rs, buf, eof, nil
 }
